@@ -71,3 +71,15 @@ package lib
 //@ func (*View).Less
 //@   pure
 //@   ensures[order] result == (v != nil && (x == nil || viewLess(x, v)))
+
+// ---- arithmetic helpers (C04, C20) ---------------------------------------------------------------
+//@ func SafeMulDiv
+//@   ensures[zero] c == 0 ==> result == 0
+//@   ensures[exact] c != 0 && (a*b)/c <= MaxUint64 ==> result == (a*b)/c
+
+//@ func AddUint64
+//@   ensures[sum] (overflow <==> a + b > MaxUint64) && (!overflow ==> sum == a + b)
+
+//@ func Uint64PercentageDiv
+//@   ensures[capped] percent <= 100
+//@   ensures[zero] (dividend == 0 || divisor == 0) ==> percent == 0
